@@ -168,7 +168,7 @@ class SubsequenceSearch:
         self.kbest_distances = None
         self.lbs = None
         self.k = None
-        self.dists_options = {} if dists_options is None else dists_options
+        self.dists_options = {} if dists_options is None else dict(dists_options)
         if max_dist is None:
             self.max_dist = self.dists_options.get('max_dist', np.inf)
         else:
